@@ -5,8 +5,8 @@ package main
 // H = SHA-256.  On concrete input the real digest is computed.  On symbolic input
 // H(x) is 32 fresh bytes constrained, for every pair of applications on the path, by
 // functional consistency (x = y ⇒ H(x) = H(y)), encoded exactly with a skolem index.
-// Collision resistance (H(x) = H(y) ⇒ x = y) is instantiated on demand at indices the
-// harness names (vsym.HashInjective).
+// Collision resistance (H(x) = H(y) ⇒ x = y) is stated exactly between inputs of equal concrete
+// length, and for its length part (H(x) = H(y) ⇒ |x| = |y|) otherwise.
 
 import (
 	"crypto/sha256"
@@ -83,15 +83,17 @@ func (e *Eng) hashOf(in SliceVal) []*Term {
 	}
 	app := &hashApp{in: in, out: out}
 	for j, prev := range p.hashes {
-		if in.Len.IsConst() && prev.in.Len.IsConst() && in.Len.C != prev.in.Len.C {
-			continue // different lengths: the inputs differ, nothing to state
-		}
 		// out ≠ prev.out ⇒ inputs differ (length, or content at a skolem index)
 		var eqs []*Term
 		for i := 0; i < 32; i++ {
 			eqs = append(eqs, tb.Eq(out[i], prev.out[i]))
 		}
 		outEq := tb.And(eqs...)
+		if in.Len.IsConst() && prev.in.Len.IsConst() && in.Len.C != prev.in.Len.C {
+			// different lengths: the inputs differ, so do the digests (collision resistance)
+			e.assertPC(tb.BNot(outEq))
+			continue
+		}
 		if in.Len.IsConst() && prev.in.Len.IsConst() && in.Len.C <= 1<<14 {
 			// equal concrete lengths: state both directions exactly (functional consistency and
 			// collision resistance) position by position; most equalities fold away
@@ -107,6 +109,10 @@ func (e *Eng) hashOf(in SliceVal) []*Term {
 		differ := tb.Or(tb.BNot(tb.Eq(in.Len, prev.in.Len)),
 			tb.And(tb.Ult(k, in.Len), tb.BNot(tb.Eq(e.sliceAt(in, k), e.sliceAt(prev.in, k)))))
 		e.assertPC(tb.Or(outEq, differ))
+		e.assertPC(tb.Or(tb.BNot(outEq), tb.Eq(in.Len, prev.in.Len))) // collision resistance, length part
+		for _, jt := range p.hashInj {                                // collision resistance instantiated at the indices the harness named
+			e.assertPC(tb.Or(tb.BNot(outEq), tb.BNot(tb.Ult(jt, in.Len)), tb.Eq(e.sliceAt(in, jt), e.sliceAt(prev.in, jt))))
+		}
 	}
 	p.hashes = append(p.hashes, app)
 	return out
@@ -123,6 +129,10 @@ func init() {
 			e.unsupported("crypto.Hash(%v).New: only SHA-256 is modelled", h)
 		}
 		return e.newDigest()
+	})
+	reg(vsymPath+".HashInjectiveAt", func(fr *frame, a []Value) Value {
+		fr.e.path.hashInj = append(fr.e.path.hashInj, a[0].(*Term))
+		return nil
 	})
 	reg("crypto/sha256.New", func(fr *frame, a []Value) Value { return fr.e.newDigest() })
 	reg("(crypto.Hash).Size", func(fr *frame, a []Value) Value {
